@@ -31,7 +31,8 @@ CONSTANTS
   SVals,         \* values stored, subset of {1,2}
   ArgLens,       \* calldata lengths, subset of {0,1,4,33}
   Overs,         \* subset of BOOLEAN: return area on top of the argument area
-  InitProgs,     \* subset of {"stop","sstore","revert","invalid","big"}
+  InitProgs,     \* subset of {"stop","sstore","revert","invalid","big","regjv","nodeposit"}; "nodeposit": a top-level create
+                 \* given so little gas that the init code runs but the code deposit cannot be paid (ErrCodeStoreOutOfGas)
   GasModes,      \* subset of {"all", "none"}: a call instruction forwards all gas (GAS) or none (0)
   FailKinds,     \* subset of {"err","oog","rev"} for the injected join-point failure
   MaxFailPos,    \* the failure is injected at firing number 1..MaxFailPos (0 = never)
@@ -555,7 +556,7 @@ ICall ==
 
 ICreate ==
   /\ CanStep /\ "CREATE" \in Ops /\ budget.nodes > 0 /\ Top.self \in Creators
-  /\ \E k \in {"CREATE", "CREATE2"}, v \in Values, ip \in InitProgs :
+  /\ \E k \in {"CREATE", "CREATE2"}, v \in Values, ip \in InitProgs \ {"nodeposit"} :
        LET id == Len(scn.frames) + 1
            p == Top
            addr == IF k = "CREATE" THEN Created(p.self, world.nonce[p.self]) ELSE Created2(p.self, ip)
@@ -584,6 +585,7 @@ InitStep ==
                                    /\ frames' = SetTop(done([f EXCEPT !.ret = "stub"]))
           [] f.init = "revert"  -> /\ frames' = SetTop(done([f EXCEPT !.err = "revert", !.ret = "dd"])) /\ UNCHANGED world
           [] f.init = "invalid" -> /\ frames' = SetTop(done([f EXCEPT !.err = "invalid"])) /\ UNCHANGED world
+          [] f.init = "nodeposit" -> /\ frames' = SetTop(done([f EXCEPT !.err = "codestore", !.ret = "rt"])) /\ UNCHANGED world
           [] f.init = "big"     -> /\ frames' = SetTop(done([f EXCEPT !.err = "codesize", !.ret = "big"])) /\ UNCHANGED world
   /\ jrn' = IF Top.init = "regjv"
             THEN [jrn EXCEPT !.keys = @ \cup {<<Top.self, 0>>},
